@@ -204,6 +204,95 @@ theorem role_as_requested (e : Env) (c : Config) (id addr : String) (voter : Boo
         rw [happ]
         simp [applyChange, addNonvoterGo_none_of_absent id addr cur hab]
 
+/-- **Same node, new address.** In a well-formed configuration, a member that re-joins
+with an address nobody uses is removed and added again: the call succeeds and the
+result is the old configuration without its old entry plus ONE entry with the new
+address and the requested role (provided another voter remains while it is out). -/
+theorem rejoin_new_address (c : Config) (hwf : WellFormed c) (s : Server) (hs : s ∈ c)
+    (a' : String) (hnew : a' ∉ addrs c) (ha' : a' ≠ "") (v : Bool)
+    (hvoter : ∃ t ∈ c, t.suf = .voter ∧ t.id ≠ s.id) :
+    storeJoin {} c s.id a' v = (removeGo s.id c ++ [⟨s.id, a', roleOf v⟩], .ok) := by
+  obtain ⟨pre, post, hsplit⟩ := List.append_of_mem hs
+  have hu := hwf.unique
+  -- nobody else has this id, nobody has this address
+  have hother : ∀ t ∈ c, t ≠ s → ¬ (t.id = s.id ∨ t.addr = a') := by
+    intro t ht hne hm
+    rcases hm with hm | hm
+    · -- two entries with the same id
+      rw [hsplit] at hu ht
+      have hn := hu.1
+      simp only [ids, List.map_append, List.map_cons] at hn
+      rcases List.mem_append.1 ht with hp | hp
+      · exact (List.nodup_append.1 hn).2.2 t.id (List.mem_map.2 ⟨t, hp, rfl⟩) s.id (by simp) hm
+      · rcases List.mem_cons.1 hp with he | hp
+        · exact hne he
+        · have := (List.nodup_cons.1 (List.nodup_append.1 hn).2.1).1
+          exact this (by rw [← hm]; exact List.mem_map.2 ⟨t, hp, rfl⟩)
+    · exact hnew (by rw [← hm]; exact List.mem_map.2 ⟨t, ht, rfl⟩)
+  have hpre : ∀ t ∈ pre, ¬ (t.id = s.id ∨ t.addr = a') := by
+    intro t ht
+    apply hother t (by rw [hsplit]; simp [ht])
+    intro he; subst he
+    rw [hsplit] at hu
+    have hn := hu.1
+    simp only [ids, List.map_append, List.map_cons] at hn
+    exact (List.nodup_append.1 hn).2.2 t.id (List.mem_map.2 ⟨t, ht, rfl⟩) t.id (by simp) rfl
+  have hpost : ∀ t ∈ post, ¬ (t.id = s.id ∨ t.addr = a') := by
+    intro t ht
+    apply hother t (by rw [hsplit]; simp [ht])
+    intro he; subst he
+    rw [hsplit] at hu
+    have hn := hu.1
+    simp only [ids, List.map_append, List.map_cons] at hn
+    exact (List.nodup_cons.1 (List.nodup_append.1 hn).2.1).1 (List.mem_map.2 ⟨t, ht, rfl⟩)
+  have hsaddr : s.addr ≠ a' := fun e => hnew (by rw [← e]; exact List.mem_map.2 ⟨s, hs, rfl⟩)
+  -- the removal is accepted
+  have hwf1 : WellFormed (removeGo s.id c) := by
+    refine ⟨unique_sublist (removeGo_sublist _ _) hu, ?_, ?_⟩
+    · intro t ht; exact hwf.nonempty_fields t ((removeGo_sublist _ _).subset ht)
+    · obtain ⟨t, ht, htv, hne⟩ := hvoter
+      exact ⟨t, removeGo_mem_of_ne _ _ _ ht hne, htv⟩
+  have hrm : nextConfiguration c (.removeServer s.id) = some (removeGo s.id c) := by
+    simp [nextConfiguration, applyChange, check_complete _ hwf1]
+  have hab : s.id ∉ ids (removeGo s.id c) := removeGo_not_mem _ _ hu.1
+  -- the add is accepted
+  have hwf2 : WellFormed (removeGo s.id c ++ [⟨s.id, a', roleOf v⟩]) := by
+    refine ⟨⟨?_, ?_⟩, ?_, ?_⟩
+    · simp only [ids, List.map_append, List.map_cons, List.map_nil]
+      rw [List.nodup_append]
+      refine ⟨hwf1.unique.1, by simp, ?_⟩
+      intro x hx y hy
+      simp only [List.mem_singleton] at hy
+      subst hy
+      intro e; subst e; exact hab hx
+    · simp only [addrs, List.map_append, List.map_cons, List.map_nil]
+      rw [List.nodup_append]
+      refine ⟨hwf1.unique.2, by simp, ?_⟩
+      intro x hx y hy
+      simp only [List.mem_singleton] at hy
+      subst hy
+      intro e; subst e
+      exact hnew ((addrs_sublist (removeGo_sublist _ _)).subset hx)
+    · intro t ht
+      rcases List.mem_append.1 ht with h | h
+      · exact hwf1.nonempty_fields t h
+      · simp only [List.mem_singleton] at h
+        subst h
+        exact ⟨(hwf.nonempty_fields s hs).1, ha'⟩
+    · obtain ⟨t, ht, htv⟩ := hwf1.has_voter
+      exact ⟨t, by simp [ht], htv⟩
+  have hloop : joinLoop s.id a' v c c = .inr (removeGo s.id c) := by
+    have h1 : ∀ cur, joinLoop s.id a' v (pre ++ s :: post) cur = joinLoop s.id a' v (s :: post) cur :=
+      fun cur => joinLoop_skip_prefix s.id a' v pre (s :: post) cur hpre
+    have h2 := h1 c
+    rw [← hsplit] at h2
+    rw [h2]
+    simp only [joinLoop, true_or, if_true, hsaddr, false_and, if_false, hrm]
+    exact joinLoop_nomatch s.id a' v post _ hpost
+  unfold storeJoin
+  simp only [Bool.not_true, Bool.false_eq_true, if_false, hloop, finishJoin, nextConfiguration,
+    applyChange_add_absent _ _ _ _ hab, check_complete _ hwf2, if_true]
+
 /-- before the `fix:` commit: a voter re-joining with its own id and address as a
 non-voter was told "ok" and stayed a voter (and vice versa) -/
 theorem role_old_witness :
